@@ -256,6 +256,69 @@ Theorem c19_ndjson_payload_lines :
 Proof. exact ndjson_payload_lines. Qed.
 Print Assumptions c19_ndjson_payload_lines.
 
+(* the answers: 200..202 with the plain body or with a body the sink's response reader accepts (the odd
+   kinds of the table answer_ok) are the successes; a 2xx answer whose body the reader rejects (the even
+   kinds: ES reportESErrors / splunk parseSplunkError returning an error) is a failed request like 413, 400,
+   204, 199 — c19_split_covers_once and the *_frames theorems are stated over is_ok_status, so they cover
+   these answers — and it makes out() return the error: the batch is offered again *)
+Theorem c19_answer_kinds :
+  (forall st, is_ok_status st = true <->
+     exists k s, st = 1000 * k + s /\ 200 <= s <= 202 /\ (k = 0 \/ k = 1 \/ k = 3 \/ k = 5 \/ k = 7))
+  /\ (forall k s, 200 <= s <= 202 -> (k = 2 \/ k = 4 \/ k = 6) -> is_ok_status (1000 * k + s) = false)
+  /\ is_ok_status 413 = false /\ is_ok_status 400 = false /\ is_ok_status 204 = false /\ is_ok_status 199 = false.
+Proof. exact answer_kinds. Qed.
+Print Assumptions c19_answer_kinds.
+
+Theorem c19_rejected_answer_is_retried :
+  forall k s, 200 <= s <= 202 -> (k = 2 \/ k = 4 \/ k = 6) ->
+  out_ret_es (1000 * k + s) true = 1 /\ out_ret_splunk (1000 * k + s) true = 1.
+Proof. exact rejected_answer_is_retried. Qed.
+Print Assumptions c19_rejected_answer_is_retried.
+
+(* a batch that the retrying batcher offers again (any number of calls, any buffer history, any answers):
+   the exchange never breaks off, every call of out() makes exactly one request and its body is the payload
+   of the batch — one frame per deliverable event, in batch order — and the worker's buffer holds that
+   payload afterwards; ES and http without split_batch, file, splunk with any copy_fields, gelf *)
+Theorem c19_retried_batch_same_payload :
+  forall tries batch prev script,
+  (forall c, es_cfg_ok c -> es_split c = false ->
+     let '(atts, p, s, ok) := attempts (es_out c) tries batch prev script in
+     ok = true
+     /\ Forall (fun r => exists a, r = Ok a /\ map rq_body (at_reqs a) = [concat (map (es_frame_of c) (deliverable batch))]) atts
+     /\ (tries <> O -> atts <> [] /\ p = concat (map (es_frame_of c) (deliverable batch)))
+     /\ (length atts <= tries)%nat)
+  /\ (forall raw, retried (http_out raw false) (fun b => concat (map (frame_http raw) (deliverable b))) tries batch prev script)
+  /\ retried file_out (fun b => concat (map frame_file (deliverable b))) tries batch prev script
+  /\ (forall cfg, retried (splunk_out cfg) (fun b => concat (map (envelope cfg) (deliverable b))) tries batch prev script)
+  /\ retried gelf_out (fun b => concat (map frame_gelf (deliverable b))) tries batch prev script.
+Proof. exact retried_batch_same_payload. Qed.
+Print Assumptions c19_retried_batch_same_payload.
+
+(* the plugin behind its own batcher (Start / Out): a batch without a deliverable event never reaches out()
+   — no request, buffer and answers untouched —, every other batch is offered exactly as in the direct
+   drive, every attempt carrying the payload *)
+Theorem c19_via_batcher :
+  forall out payload, sends_whole out payload ->
+  forall tries batch prev script,
+  (deliverable batch = [] -> tries <> O ->
+     attempts (via_out out) tries batch prev script = ([Ok (mkAtt [] false 0 prev script)], prev, script, true))
+  /\ (deliverable batch <> [] ->
+      attempts (via_out out) tries batch prev script = attempts out tries batch prev script
+      /\ retried out payload tries batch prev script).
+Proof. exact via_batcher. Qed.
+Print Assumptions c19_via_batcher.
+
+(* Start(): an empty index_values list stands for ["@time"]; the configuration then is well formed iff the
+   format has at most one placeholder, and the action line is the same for every event *)
+Theorem c19_es_default_index_value :
+  forall op fmt time sp,
+  let c := mkEs op fmt (es_default_vals []) time sp in
+  es_vals c = [ITime]
+  /\ ((count_pct fmt <= 1)%nat <-> es_cfg_ok c)
+  /\ forall e1 e2, es_header c e1 = es_header c e2.
+Proof. exact es_default_index_value. Qed.
+Print Assumptions c19_es_default_index_value.
+
 (* non-vacuity: a batch [regular with svc = a, quote, b ; parent ; regular without svc] through ES with split_batch and
    the answers 413, 200, 413(single event: gives up) — and the same batch answered 413, 200, 200 *)
 Example c19_nonvacuous :
@@ -269,6 +332,22 @@ Example c19_nonvacuous :
       | Ok a => (map (fun q => (rq_l q, rq_r q, rq_status q)) (at_reqs a), at_err a, at_ret a)
       | _ => ([], true, 9) end) = ([(0, 2, 413); (0, 1, 200); (1, 2, 413)], true, 0).
 Proof. split; [exact ex_hyps_ok|repeat split; vm_compute; reflexivity]. Qed.
+
+(* non-vacuity of the coverage-round theorems: splunk offered [first; parent; third] three times with the
+   answers 2200 (a 2xx answer whose body parseSplunkError rejects), 500, 1200 (accepted): three attempts
+   with the same body, the last one ends the exchange; the all-parent batch through the batcher makes no
+   request; the default index value *)
+Example c19_retry_nonvacuous :
+  is_ok_status 2200 = false /\ is_ok_status 1200 = true
+  /\ (let '(atts, p, s, ok) := attempts (splunk_out []) 3 [ex_e1; ex_e2; ex_e3] [9]%N [2200; 500; 1200] in
+      (map (fun r => match r with Ok a => (map rq_status (at_reqs a), at_ret a) | _ => ([], 9) end) atts,
+       list_bytes_eqb (map (fun r => match r with Ok a => concat (map rq_body (at_reqs a)) | _ => [] end) atts)
+                      [p; p; p], s, ok))
+     = ([([2200], 1); ([500], 1); ([1200], 0)], true, [], true)
+  /\ attempts (via_out (splunk_out [])) 3 [ex_e2] [9]%N [500] = ([Ok (mkAtt [] false 0 [9]%N [500])], [9]%N, [500], true)
+  /\ es_header (mkEs [105]%N [116; 45; 37]%N (es_default_vals []) [116; 116]%N false) ex_e1
+     = Ok (es_prefix [105]%N ++ [116; 45; 116; 116]%N ++ es_suffix).
+Proof. repeat split; vm_compute; reflexivity. Qed.
 
 (* non-vacuity of the splunk theorems: the documented configuration ts -> time, service -> fields.service_name
    (plus an entry to event.x, which Start() drops) on the batch [first with ts and service; second
